@@ -683,5 +683,9 @@ ConvergedButKnown(Q, t) ==
 C11_ConvergedAtEnd ==
   (Last.e = "end" /\ q0.t >= 0) =>
      /\ ConvergedButKnown(db, q0.t)
-     /\ \A x \in EnqueueableTasks(db) \cap EnqueueableTasks(q0.db) : db.tasks[x] # q0.db.tasks[x]
+     \* the dispatcher takes one task per root promise and cycle, the oldest first: what must not happen
+     \* is that a ROOT with something to dispatch is never served (a younger sibling legitimately waits
+     \* behind an older one that nobody claims)
+     /\ \A r \in EnqueueableRoots(db) \cap EnqueueableRoots(q0.db) :
+           \E x \in DOMAIN db.tasks : db.tasks[x].rootId = r /\ (~ Has(q0.db.tasks, x) \/ db.tasks[x] # q0.db.tasks[x])
 =============================================================================
